@@ -2,4 +2,4 @@
 From Coq Require Import extraction.ExtrOcamlBasic.
 From Verif Require Import Base.Prelude Model.Restrict Model.Iset Model.Count Model.Slice Model.NpWrap.
 Extraction "../ocaml/model_c14.ml"
-  array_function array_ufunc mixed_ufunc concat_tsd cat0 split_tsd split_other np_div_points get_class.
+  array_function array_ufunc array_ufunc_multi mixed_ufunc concat_tsd cat0 split_tsd split_other np_div_points get_class.
